@@ -5,7 +5,7 @@
    (b) the segment (Net/Commute.v, Pd/Layout.v): datagrams naming different stations commute, and a
        group's cycle passes through the devices of other groups unchanged. *)
 From EC Require Import Base.Prelude Base.Bytes Pdu.Frame Pdu.Slots Pdu.SlotsProofs Pdu.Client Pdu.ClientProofs
-  Pdu.Isolation Pd.Layout Pd.LayoutProofs Net.Commute.
+  Pdu.Isolation Pd.Layout Pd.LayoutProofs Net.Commute Pdu.IdxAlloc Pdu.IdxAllocProofs Gen.IdxProgram.
 Local Open Scope N_scope.
 
 (* (a1) an operation on a handle changes that handle's slot only *)
@@ -99,3 +99,23 @@ Theorem c20_segment_example :
     snd (lrw_dev (ds_fmmus s) (fun x => x mod 256) 96 [0; 0]) = [4360 mod 256; 4361 mod 256].
 Proof. exact passes_example. Qed.
 Print Assumptions c20_segment_example.
+
+(* ---- the PDU index counter all tasks (and threads) share ---- *)
+
+(* FrameBox::next_pdu_idx, as the translator reads it off the source (Gen/IdxProgram.v: its accesses
+   to the shared counter, in program order), run by any number of threads under EVERY schedule:
+   as long as no more than 256 indices are taken, no index is handed out twice - so two frames in
+   flight never carry the same first-datagram index, which is what routes a response to its task
+   (c20_rx_touches_addressee_only).  The statement is about next_pdu_idx_program, whatever the
+   translator found: it is provable because that program is the single atomic fetch-add. *)
+Theorem c20_indices_distinct : forall c0 n sched, c0 < 256 -> (length sched <= 256)%nat ->
+  NoDup (results (arun next_pdu_idx_program sched (ainit c0 n))).
+Proof. exact atomic_distinct. Qed.
+Print Assumptions c20_indices_distinct.
+
+(* ... and it matters that it is: the same routine written as a load followed by a store hands
+   the same index to two threads *)
+Theorem c20_split_alloc_refuted : ~ (forall c0 n sched, c0 < 256 -> (length sched <= 256)%nat ->
+  NoDup (results (arun [PLoad; PStore] sched (ainit c0 n)))).
+Proof. exact split_not_distinct. Qed.
+Print Assumptions c20_split_alloc_refuted.
